@@ -21,7 +21,8 @@
      TXT AAAA SRV; IN CH HS) in any mix of upper and lower case, and `TYPEnnn` / `CLASSnnn`;
    * RDATA (`C23_rdata_partial`): `\# len hex` for any class and type, checked against
      `Rdata::validate`; and the typed syntaxes of A (IN), NS MD MF CNAME MB MG MR PTR (one name),
-     MX, SOA, MINFO, SRV (IN), TXT, HINFO, AAAA (IN; eight hexadecimal groups written in full, or with `::` for a run of zero groups), Chaosnet A (name and octal
+     MX, SOA, MINFO, SRV (IN), TXT, HINFO, AAAA (IN; eight hexadecimal groups written in full, with `::` for a run of zero groups,
+     and/or ending in a dotted quad), Chaosnet A (name and octal
      address) —
      names absolute, relative or `@`, in any octet forms;
      character-strings quoted or unquoted, each octet raw, `\X` or `\DDD`, with raw newlines inside
@@ -40,12 +41,11 @@
    * whole files of such entries: exactly the denoted records, in order, with line numbers
      (`C23_records_partial`).
   NOT PROVED (the gap; the name says `_partial`)
-     AAAA addresses written with an IPv4 suffix, and the typed RDATA syntax of WKS —
-     not in the presentation AST; in the subset such RDATA can be written in `\#` form.  They are
-     covered on every run by the correspondence oracle, which is independent of these proofs: the
-     harness's pretty-printer renders random record lists with random choices for *all* of the
-     above and the expected parse is the generating record list (op `zfp`, spec column = expected
-     records).
+     the typed RDATA syntax of WKS — not in the presentation AST; in the subset such RDATA can be
+     written in `\#` form.  It is covered on every run by the correspondence oracle, which is
+     independent of these proofs: the harness's pretty-printer renders random record lists with
+     random choices for *all* of the above and the expected parse is the generating record list
+     (op `zfp`, spec column = expected records).
 -/
 import QV.Proofs.ZoneFile.Files
 
@@ -121,7 +121,7 @@ theorem C23_generic_rdata (ctx : Ctx) (cls ty : Nat) (h41 : ty ≠ 41) (h250 : t
   parseRdata_generic ctx cls ty h41 h250 sep rd ws cmt r hne hsep hlen hvalid hws hc line
 
 /-- **RDATA**, generic or typed (the kinds of `PRdata`: `\#`, A, one-name types, MX, SOA, MINFO,
-    SRV, TXT, HINFO, AAAA in full or with `::`, Chaosnet A), with any well-formed gaps — blanks, parentheses, line ends and comments
+    SRV, TXT, HINFO, AAAA in any of its forms, Chaosnet A), with any well-formed gaps — blanks, parentheses, line ends and comments
     inside parentheses — before (`G 0`), inside (`G (i+1)`) and after it (`tg`), up to the end of
     the line (LF, CRLF, or the end of the file): the text is read as the RDATA it denotes; the line
     count advances by the line ends inside gaps, names and strings plus that of the line end, and
@@ -208,7 +208,7 @@ private def sD : PString := ⟨false, [(100, .dec)]⟩
     `$ORIGIN t.¶` `a\.b.\010c. iN 5 TYPE1 \# 4 01020304 ;x¬` `→¬` ` →TYPE16→\#(2;h¶ 0161)¶` `$TTL→(;x¶ 9 )¬`
     `w CLASS3 TYPE99 \# 0¶` `@ Ns a¶` ` mx 10 m\\\¶.\120.¶` ` SOA @ a ( 1 ;s¬ 2¶→3 4 4294967295 ) ;d¶`
     `a→( 7;¶→iN ) Srv 1 2 3 @¶` ` MINFO a m\\\¶.\120. ;¶` ` a (192.0.2.1)¬` ` (txt "a¶b\"" c\;d¬ \100)¶`
-    ` Hinfo "" \100¶` ` aAaA 2001:db8:0:0:0:0:ff:ffff¶` ` aAaA fe80::1¶` `a cH a @ 177777¶` `$INCLUDE "x y" (a)¶` `$INCLUDE→z ;` (no line end) -/
+    ` Hinfo "" \100¶` ` aAaA 2001:db8:0:0:0:0:ff:ffff¶` ` aAaA fe80::1¶` ` aAaA ::ffff:192.0.2.1¶` ` aAaA 1:2:3:4:5:6:10.0.0.255¶` `a cH a @ 177777¶` `$INCLUDE "x y" (a)¶` `$INCLUDE→z ;` (no line end) -/
 def exFile : List PEntry :=
   [.origin [[(116, .raw)]] [.blank false] [] [] .lf,
    .record ⟨.named (.abs [[(97, .raw), (46, .esc), (98, .raw)], [(10, .dec), (99, .raw)]]), some 5,
@@ -235,11 +235,13 @@ def exFile : List PEntry :=
    .record ⟨.same, none, none, true, .mnemonic [72, 105, 110, 102, 111] 13, .hinfo ⟨true, []⟩ sD, [], [], [], [], .lf⟩,
    .record ⟨.same, none, none, true, .mnemonic [97, 65, 97, 65] 28, .aaaa [8193, 3512, 0, 0, 0, 0, 255, 65535], [], [], [], [], .lf⟩,
    .record ⟨.same, none, none, true, .mnemonic [97, 65, 97, 65] 28, .aaaaC [65152] [1], [], [], [], [], .lf⟩,
+   .record ⟨.same, none, none, true, .mnemonic [97, 65, 97, 65] 28, .aaaaV4 [] (some [65535]) 192 0 2 1, [], [], [], [], .lf⟩,
+   .record ⟨.same, none, none, true, .mnemonic [97, 65, 97, 65] 28, .aaaaV4 [1, 2, 3, 4, 5, 6] none 10 0 0 255, [], [], [], [], .lf⟩,
    .record ⟨.named nA, none, some (.mnemonic [99, 72] 3), false, .mnemonic [97] 1, .chA .atSign 65535, [], [], [], [], .lf⟩,
    .incl ⟨true, [(120, .raw), (32, .raw), (121, .raw)]⟩ (some nA) [.blank false] [.blank false, .openParen] [.closeParen] [] .lf,
    .incl ⟨false, [(122, .raw)]⟩ none [.blank true] [] [.blank false] [59] .eof]
 
-/-- the example file is well-formed and denotes fourteen records and two include requests -/
+/-- the example file is well-formed and denotes sixteen records and two include requests -/
 theorem exFile_ok :
     (∀ e ∈ exFile, WFEntry e) ∧
     denoteFile validB exFile (toSCtx {}) 1 =
@@ -257,9 +259,11 @@ theorem exFile_ok :
             .record ⟨23, [1, 97, 1, 116, 0], 9, 1, 13, [0, 1, 100]⟩,
             .record ⟨24, [1, 97, 1, 116, 0], 9, 1, 28, [32, 1, 13, 184, 0, 0, 0, 0, 0, 0, 0, 0, 0, 255, 255, 255]⟩,
             .record ⟨25, [1, 97, 1, 116, 0], 9, 1, 28, [254, 128, 0, 0, 0, 0, 0, 0, 0, 0, 0, 0, 0, 0, 0, 1]⟩,
-            .record ⟨26, [1, 97, 1, 116, 0], 9, 3, 1, [1, 116, 0, 255, 255]⟩,
-            .incl 27 [120, 32, 121] (some [1, 97, 1, 116, 0]),
-            .incl 28 [122] (some [1, 116, 0])] := by
+            .record ⟨26, [1, 97, 1, 116, 0], 9, 1, 28, [0, 0, 0, 0, 0, 0, 0, 0, 0, 0, 255, 255, 192, 0, 2, 1]⟩,
+            .record ⟨27, [1, 97, 1, 116, 0], 9, 1, 28, [0, 1, 0, 2, 0, 3, 0, 4, 0, 5, 0, 6, 10, 0, 0, 255]⟩,
+            .record ⟨28, [1, 97, 1, 116, 0], 9, 3, 1, [1, 116, 0, 255, 255]⟩,
+            .incl 29 [120, 32, 121] (some [1, 97, 1, 116, 0]),
+            .incl 30 [122] (some [1, 116, 0])] := by
   refine ⟨?_, by decide +kernel⟩
   have wfA : WFName nA := by unfold nA WFName; exact ⟨by decide, by simp [LabelsOK, labelOctets], by decide⟩
   have wfMail : WFName nMail := by
@@ -268,7 +272,7 @@ theorem exFile_ok :
     intro n h; cases h
   intro e he
   simp only [exFile, List.mem_cons, List.mem_nil_iff, or_false] at he
-  rcases he with rfl | rfl | rfl | rfl | rfl | rfl | rfl | rfl | rfl | rfl | rfl | rfl | rfl | rfl | rfl | rfl | rfl | rfl | rfl
+  rcases he with rfl | rfl | rfl | rfl | rfl | rfl | rfl | rfl | rfl | rfl | rfl | rfl | rfl | rfl | rfl | rfl | rfl | rfl | rfl | rfl | rfl
   · exact ⟨⟨by simp, by decide, by simp [LabelsOK, labelOctets], by decide⟩, false, GapOK_of_B (by decide),
       TailOK_of_B (by decide)⟩
   · refine ⟨?_, by decide, ?_,
@@ -313,6 +317,12 @@ theorem exFile_ok :
       ⟨mAaaa, by decide, by decide, by decide⟩, ⟨by decide, by decide⟩, gaps_ok_of_B _ (by decide)⟩
   · exact ⟨noOwner, by decide, (by intro c hc; cases hc),
       ⟨mAaaa, by decide, by decide, by decide⟩, ⟨by decide, by decide, by decide⟩, gaps_ok_of_B _ (by decide)⟩
+  · exact ⟨noOwner, by decide, (by intro c hc; cases hc),
+      ⟨mAaaa, by decide, by decide, by decide⟩, ⟨by decide, by decide, by decide, by decide, by decide, by decide, by decide⟩,
+      gaps_ok_of_B _ (by decide)⟩
+  · exact ⟨noOwner, by decide, (by intro c hc; cases hc),
+      ⟨mAaaa, by decide, by decide, by decide⟩, ⟨by decide, by decide, by decide, by decide, by decide, by decide⟩,
+      gaps_ok_of_B _ (by decide)⟩
   · refine ⟨?_, by decide, ?_, ⟨mA, by decide, by decide, by decide⟩, ⟨trivial, by decide, by decide⟩,
       gaps_ok_of_B _ (by decide)⟩
     · intro n hn; cases hn; exact ⟨wfA, by decide⟩
@@ -339,15 +349,17 @@ example : parseAll (renderFile exFile) {} =
      .item (.record 23 ⟨[1, 97, 1, 116, 0], 9, 1, 13, [0, 1, 100]⟩),
      .item (.record 24 ⟨[1, 97, 1, 116, 0], 9, 1, 28, [32, 1, 13, 184, 0, 0, 0, 0, 0, 0, 0, 0, 0, 255, 255, 255]⟩),
      .item (.record 25 ⟨[1, 97, 1, 116, 0], 9, 1, 28, [254, 128, 0, 0, 0, 0, 0, 0, 0, 0, 0, 0, 0, 0, 0, 1]⟩),
-     .item (.record 26 ⟨[1, 97, 1, 116, 0], 9, 3, 1, [1, 116, 0, 255, 255]⟩),
-     .item (.incl 27 [120, 32, 121] (some [1, 97, 1, 116, 0])),
-     .item (.incl 28 [122] (some [1, 116, 0]))] := by
+     .item (.record 26 ⟨[1, 97, 1, 116, 0], 9, 1, 28, [0, 0, 0, 0, 0, 0, 0, 0, 0, 0, 255, 255, 192, 0, 2, 1]⟩),
+     .item (.record 27 ⟨[1, 97, 1, 116, 0], 9, 1, 28, [0, 1, 0, 2, 0, 3, 0, 4, 0, 5, 0, 6, 10, 0, 0, 255]⟩),
+     .item (.record 28 ⟨[1, 97, 1, 116, 0], 9, 3, 1, [1, 116, 0, 255, 255]⟩),
+     .item (.incl 29 [120, 32, 121] (some [1, 97, 1, 116, 0])),
+     .item (.incl 30 [122] (some [1, 116, 0]))] := by
   rw [C23_records_partial exFile exFile_ok.1 (by simp [exFile, EolsOK, entryEol]) {} CtxWF_default _ exFile_ok.2]
   rfl
 
 /-- the same file, evaluated directly: the text is what it is meant to be and the parser yields
-    fourteen records and two include requests -/
-example : (parseAll (renderFile exFile) {}).length = 16 := by decide +kernel
+    sixteen records and two include requests -/
+example : (parseAll (renderFile exFile) {}).length = 18 := by decide +kernel
 
 /-- RDATA alone: ` ( 10 ;x<CRLF> a )` and then the end of the file, after the type field of an MX
     record, origin `t.` -/
